@@ -1,0 +1,151 @@
+//! Verification hooks. Compiled only with `--features verif-hooks`; the
+//! default build does not contain this module and none of its call sites.
+//!
+//! Deliberately contains no `extern "C"` items, no `#[repr(C)]` types and no
+//! `pub const`s, so cbindgen's output (include/updater.h) is unaffected.
+
+use std::cell::Cell;
+use std::sync::atomic::{AtomicUsize, Ordering};
+use std::sync::RwLock;
+
+pub use crate::config::{current_arch, current_platform};
+pub use crate::network::{
+    CreatePatchEventRequest, DownloadFileFn, Patch, PatchCheckRequest, PatchCheckRequestFn,
+    PatchCheckResponse, ReportEventFn,
+};
+
+/// Which process-global lock is about to be taken.
+#[derive(Clone, Copy, Debug, PartialEq, Eq)]
+pub enum LockId {
+    Config,
+    Updater,
+}
+
+type LockHook = fn(LockId);
+
+static BEFORE_LOCK: RwLock<Option<LockHook>> = RwLock::new(None);
+static AFTER_UNLOCK: RwLock<Option<LockHook>> = RwLock::new(None);
+static LIVE_BG_THREADS: AtomicUsize = AtomicUsize::new(0);
+
+thread_local! {
+    static CONFIG_DEPTH: Cell<usize> = const { Cell::new(0) };
+    static UPDATER_DEPTH: Cell<usize> = const { Cell::new(0) };
+}
+
+/// Installs (or clears) the callback invoked immediately before a thread
+/// tries to take one of the two global locks.
+pub fn set_before_lock_hook(hook: Option<LockHook>) {
+    *BEFORE_LOCK.write().unwrap() = hook;
+}
+
+/// Installs (or clears) the callback invoked right after a lock was released.
+pub fn set_after_unlock_hook(hook: Option<LockHook>) {
+    *AFTER_UNLOCK.write().unwrap() = hook;
+}
+
+pub(crate) fn before_lock(id: LockId) {
+    let hook = *BEFORE_LOCK.read().unwrap();
+    if let Some(hook) = hook {
+        hook(id);
+    }
+}
+
+fn depth_cell<R>(id: LockId, f: impl FnOnce(&Cell<usize>) -> R) -> R {
+    match id {
+        LockId::Config => CONFIG_DEPTH.with(f),
+        LockId::Updater => UPDATER_DEPTH.with(f),
+    }
+}
+
+/// Held for as long as the calling thread holds the corresponding lock.
+/// Declared after the mutex guard at each call site, so it is dropped first;
+/// the unlock hook is therefore deferred to `Released`, declared before it.
+pub(crate) struct DepthGuard(LockId);
+
+impl DepthGuard {
+    pub(crate) fn new(id: LockId) -> Self {
+        depth_cell(id, |c| c.set(c.get() + 1));
+        DepthGuard(id)
+    }
+}
+
+impl Drop for DepthGuard {
+    fn drop(&mut self) {
+        depth_cell(self.0, |c| c.set(c.get() - 1));
+    }
+}
+
+/// Declared *before* the mutex guard at each call site, so that it is dropped
+/// after the mutex has been released.
+pub(crate) struct Released(LockId);
+
+impl Released {
+    pub(crate) fn new(id: LockId) -> Self {
+        Released(id)
+    }
+}
+
+impl Drop for Released {
+    fn drop(&mut self) {
+        let hook = *AFTER_UNLOCK.read().unwrap();
+        if let Some(hook) = hook {
+            hook(self.0);
+        }
+    }
+}
+
+/// Number of times the calling thread currently holds the config/state lock.
+pub fn config_lock_depth() -> usize {
+    CONFIG_DEPTH.with(|c| c.get())
+}
+
+/// Number of times the calling thread currently holds the update lock.
+pub fn updater_lock_depth() -> usize {
+    UPDATER_DEPTH.with(|c| c.get())
+}
+
+/// Called by the spawning thread just before `thread::spawn`.
+pub(crate) fn bg_thread_spawned() {
+    LIVE_BG_THREADS.fetch_add(1, Ordering::SeqCst);
+}
+
+/// Lives inside the spawned closure; dropping it marks the thread finished.
+pub(crate) struct BgThreadGuard;
+
+impl Drop for BgThreadGuard {
+    fn drop(&mut self) {
+        LIVE_BG_THREADS.fetch_sub(1, Ordering::SeqCst);
+    }
+}
+
+/// Background threads spawned by the library that have not finished yet.
+pub fn live_bg_threads() -> usize {
+    LIVE_BG_THREADS.load(Ordering::SeqCst)
+}
+
+/// Forgets the process-global configuration (what a process restart does).
+pub fn reset_config() {
+    crate::config::with_config_mut(|config| {
+        *config = None;
+    });
+}
+
+/// Replaces the network callbacks of the current configuration.
+/// Returns false if the library is not initialised.
+pub fn set_network_hooks(
+    patch_check_request_fn: PatchCheckRequestFn,
+    download_file_fn: DownloadFileFn,
+    report_event_fn: ReportEventFn,
+) -> bool {
+    crate::config::with_config_mut(|maybe_config| match maybe_config {
+        Some(config) => {
+            config.network_hooks = crate::network::NetworkHooks {
+                patch_check_request_fn,
+                download_file_fn,
+                report_event_fn,
+            };
+            true
+        }
+        None => false,
+    })
+}
